@@ -95,6 +95,23 @@ PROPS["C04"] = dict(
     thorough=dict(shards=16, checks=3000, timeout_s=5400),
 )
 
+PROPS["C12"] = dict(
+    pkg="props/c12", level="fault_enumeration", engine="E-pos", design_ref="§4 C12",
+    technique="PBT-generated files (rapid) x exhaustive single-fault enumeration: every truncation length, every record-header byte x replacement values, every unsupported file-header class",
+    rule=("evaluation = one damaged copy of a generated file (1..12 nil/empty/patterned records, each compression type, write buffer {1,7,64,4096}, read buffer "
+          "{4,7,64,4096}) read by the sequential reader and by ReadNextAt at every written offset: (a) every truncation length 0..size, (b) every byte of every record "
+          "header set to all 255 other values (files <= 2 KiB) or to bit flips/0x00/0xff/continuation-bit set and cleared/marker bytes (longer files), (c) file-header version in "
+          "{0,5,6,255,256,2^31,2^32-1} and compression in {4,5,255,256,2^31,2^32-1}; non-trivial = a cut strictly inside a record or the file header, any header-byte "
+          "alteration, any file-header alteration; distinct = (case hash, position, value)"),
+    level_text=("For each generated file the single-fault space the property names is enumerated exhaustively (truncations; header bytes x values) and each damaged copy is "
+                "judged by the real readers: fault enumeration per object, sampled over objects."),
+    level_note="single-byte damage only; header damage must yield 'no record' (error or EOF) for that record and nothing after it; an independent 30-line header decoder locates header bytes",
+    assumptions=COMMON_ASSUME + ["files are materialised on tmpfs (/dev/shm) when present"],
+    require_labels=["cut:inside-header", "cut:between-header-and-payload", "cut:inside-payload", "cut:inside-compressed-payload", "hdr:marker", "hdr:nilflag", "hdr:usize", "hdr:csize", "hdr:crc", "filehdr:version", "filehdr:compression"],
+    quick=dict(shards=16, checks=3, shrink_s=30),
+    thorough=dict(shards=16, checks=130, timeout_s=5400),
+)
+
 NOT_APPLICABLE = {}
 
 
